@@ -1126,15 +1126,21 @@ def correspond(ctx):
     with tempfile.TemporaryDirectory(prefix='c03_') as tmpdir:
         for name, case in load_corpus():
             _correspond_case(ctx, case, 'corpus:' + name, tmpdir, True)
-        plan = [(gen_general, ctx.n(150, 4000)), (gen_grid, ctx.n(120, 3000)), (gen_edges, ctx.n(50, 1000)),
-                (gen_hunt, ctx.n(150, 4000)), (gen_outside, ctx.n(80, 2000)), (gen_shear, ctx.n(150, 3000)),
+        plan = [(gen_general, ctx.n(120, 4000)), (gen_grid, ctx.n(120, 3000)), (gen_edges, ctx.n(50, 1000)),
+                (gen_hunt, ctx.n(150, 4000)), (gen_outside, ctx.n(80, 2000)), (gen_shear, ctx.n(120, 3000)),
                 (gen_dense, ctx.n(15, 200))]
+        import time
+        ph = ctx.extra.setdefault('phase_seconds', {})
         for gen, count in plan:
+            t0 = time.time()
             for it in range(count):
                 case = gen(rng, it)
                 _correspond_case(ctx, case, gen.__name__, tmpdir, it % 2 == 0)
+            ph['corr:' + gen.__name__] = round(time.time() - t0, 1)
+        t0 = time.time()
         for it in range(ctx.n(40, 800)):
             run_sequence(ctx, rng, it, 'corr', tmpdir)
+        ph['corr:sequence'] = round(time.time() - t0, 1)
     # text format: hand-made rows (long lists, empty lists, many digits) through dump/load of the model only
     _model_text_selfcheck(ctx, rng)
 
@@ -1568,20 +1574,26 @@ def search(ctx, broken):
         _search_case(ctx, case, 'corpus', name, True)
     mult = 3 if broken else 1
     plan = [('dense', gen_dense, ctx.n(40, 1500) * mult), ('shear', gen_shear, ctx.n(600, 12000) * mult),
-            ('hunt', gen_hunt, ctx.n(5000, 100000) * mult), ('general', gen_general, ctx.n(250, 8000) * mult),
+            ('hunt', gen_hunt, ctx.n(4000, 100000) * mult), ('general', gen_general, ctx.n(250, 8000) * mult),
             ('grid', gen_grid, ctx.n(250, 8000) * mult), ('edges', gen_edges, ctx.n(100, 3000) * mult)]
     with tempfile.TemporaryDirectory(prefix='c03_') as tmpdir:
+        import time
+        ph = ctx.extra.setdefault('phase_seconds', {})
         for kind, gen, count in plan:
+            t0 = time.time()
             for it in range(count):
                 case = gen(rng, it)
                 _search_case(ctx, case, kind, kind, full=(kind != 'hunt' or it % 8 == 0),
                              tmpdir=tmpdir if it % 3 == 0 else None)
                 if len(ctx.violations) >= 6:
                     return
+            ph['oracle:' + kind] = round(time.time() - t0, 1)
+        t0 = time.time()
         for it in range(ctx.n(150, 3000) * mult):
             run_sequence(ctx, rng, it, 'oracle', tmpdir)
             if len(ctx.violations) >= 6:
                 return
+        ph['oracle:sequence'] = round(time.time() - t0, 1)
     if ctx.thorough:
         _exhaustive_small(ctx)
 
